@@ -1,9 +1,49 @@
 import QecVerif.Model.DriverLattice
+import QecVerif.Model.Lattice.Color666
 namespace Qec.Drv
 open Qec Qec.Wire
 
-/-- driver ops of the color666 family (filled in by the family's model) -/
+private def parseOp? (op : String) : Option P1 :=
+  match op.toList with | [ch] => P1.ofChar? ch | _ => none
+
+/-- driver ops of the color666 family; `L` is the (accepted) size -/
 def color666 : List String → Option String
+  | ["ctor", s] => do let s ← parsePyVal? s; pure (showCtor (Color666.ctor s))
+  | ["nkd", l] => do
+      let l ← parseInt? l
+      let (n, k, d) := Color666.nkd l; pure s!"{n} {k} {d}"
+  | ["bound", l] => do let l ← parseInt? l; pure (toString (Color666.bound l))
+  | ["stabs", l] => do let l ← parseInt? l; pure (showMat (Color666.stabilizers l))
+  | ["lx", l] => do let l ← parseInt? l; pure (showBits (Color666.logicalX l))
+  | ["lz", l] => do let l ← parseInt? l; pure (showBits (Color666.logicalZ l))
+  | ["plaqidx", l] => do let l ← parseInt? l; pure (showIdxList (Color666.plaquetteIndices l))
+  | ["flat", l, i] => do
+      let l ← parseInt? l; let i ← parseIdx? i
+      pure (if Color666.isSite i.1 i.2 && Color666.inBounds l i.1 i.2 then toString (Color666.flatten i.1 i.2)
+            else "AssertionError")
+  | ["kinds", i] => do
+      let i ← parseIdx? i
+      pure s!"{showBool (Color666.isPlaquette i.1 i.2)}{showBool (Color666.isSite i.1 i.2)}"
+  | ["inb", l, i] => do
+      let l ← parseInt? l; let i ← parseIdx? i; pure (showBool (Color666.inBounds l i.1 i.2))
+  | ["site", l, op, i] => do
+      let l ← parseInt? l; let i ← parseIdx? i; let op ← parseOp? op
+      pure (if Color666.isSite i.1 i.2 then showBits (Color666.site l op (Color666.identity l) i) else "IndexError")
+  | ["opat", l, v, i] => do
+      let l ← parseInt? l; let v ← parseBits? v; let i ← parseIdx? i
+      pure (if Color666.isSite i.1 i.2 && Color666.inBounds l i.1 i.2
+            then String.singleton (Color666.operatorAt l v i.1 i.2).toChar else "IndexError")
+  | ["plaq", l, op, i] => do
+      let l ← parseInt? l; let i ← parseIdx? i; let op ← parseOp? op
+      pure (showExB (Color666.plaquette l op (Color666.identity l) i.1 i.2))
+  | ["virt", l, i] => do
+      let l ← parseInt? l; let i ← parseIdx? i
+      match Color666.virtualPlaquette l i.1 i.2 with
+      | .ok t => pure (showIdx t) | .error _ => pure "IndexError"
+  | ["s2p", l, s] => do
+      let l ← parseInt? l; let s ← parseBits? s
+      let (x, z) := Color666.syndromeToPlaquettes l s
+      pure s!"{showIdxList x}|{showIdxList z}"
   | _ => none
 
 end Qec.Drv
